@@ -199,6 +199,14 @@ def lib_dataframe(ev, a, k, n, mod):
             elif isinstance(index, SymRange):
                 nrows = index.n
             return DFV(nrows, {kk: as_sym(vv.items[0]) for kk, vv in data.d.items()}, index)
+        if isinstance(data, DictV) and data.d and all(isinstance(kk, str) for kk in data.d) and all(is_sym(vv) and not isinstance(vv, bool) for vv in data.d.values()):
+            # {"col": <column vector>, ...}: one whole-column expression each
+            nrows = sp.Symbol("NSEQ", positive=True, integer=True)
+            if isinstance(index, RangeV):
+                nrows = sp.Integer(index.hi - index.lo)
+            elif isinstance(index, SymRange):
+                nrows = index.n
+            return DFV(nrows, {kk: as_sym(vv) for kk, vv in data.d.items()}, index)
         if isinstance(data, Tup) and not getattr(data, "elementwise", False) and len(data.items) == 1 and isinstance(data.items[0], DictV) \
                 and all(isinstance(kk, str) for kk in data.items[0].d):
             # a list holding ONE record: a table with a single row (not one row per element of a sequence)
